@@ -847,6 +847,12 @@ class NPProxy:
     def isscalar(self, x):
         return isinstance(x, S) or _np.isscalar(x)
 
+    def where(self, cond, x=None, y=None):
+        # 0-d operands are bare scalars, so NumPy would not dispatch to SymArray by itself
+        if x is not None and (_contains_sym(x) or _contains_sym(y)):
+            return _h_where(cond, x, y)
+        return _np.where(cond) if x is None else _np.where(cond, x, y)
+
 
 # --------------------------------------------------------------------------- install / uninstall
 _TARGETS = [
